@@ -101,8 +101,12 @@ def run_case(case, acc, order):
             # only stored spikes, only unstored ones, and both must all give the raw window
             try:
                 orig = np.random.choice
-                np.random.choice = lambda a, size=None, replace=True, p=None: np.asarray(a)[:size]
-                m.save_spikes_subset_waveforms(max_n_spikes_per_template=1, sample2unit=1.0)
+                # the scripted draw returns its picks in descending order (a draw is not sorted)
+                fm = case.get('first_max', 1)
+                np.random.choice = lambda a, size=None, replace=True, p=None: (
+                    np.asarray(a)[:size][::-1] if fm == 1 else np.asarray(a)[[-1, 0, -2][:size]])
+                m.save_spikes_subset_waveforms(max_n_spikes_per_template=case.get('first_max', 1),
+                                               sample2unit=1.0)
                 sid = np.load(str(d / 'ds' / '_phy_spikes_subset.spikes.npy'))
                 sch = np.load(str(d / 'ds' / '_phy_spikes_subset.channels.npy'))
                 stored_for.clear()
@@ -200,6 +204,16 @@ def explore(ctx):
                                'raw': True, 'raw_dtype': 'int16', 'channel_map': cmap,
                                'time_dtype': 'uint64', 'features': 'absent', 'tfeatures': 'absent',
                                'sample_rate': 100.0, 'fill': ctx.seed}, 'factors': [1, 2.5]})
+    # every spike belongs to one template (the others are unused), the first export draws 3 of the 7
+    # spikes, the recording spans three chunks
+    for tdt in ('uint64', 'int64'):
+        spikes = [0, 1, 2, 9, 10, n_raw - 2, n_raw - 1]
+        cases.append({'spec': {'n_spikes': len(spikes), 'n_templates': 3, 'n_channels': 4, 'nsw': 4,
+                               'n_raw': n_raw, 'spike_samples': spikes, 'spike_templates': [0] * len(spikes),
+                               'raw': True, 'raw_dtype': 'int16', 'raw_files': 2, 'channel_map': 'perm',
+                               'time_dtype': tdt, 'features': 'absent', 'tfeatures': 'absent',
+                               'sample_rate': 10 / 600.0, 'fill': ctx.seed},
+                      'factors': [1, 2.5], 'first_max': 3})
     ctx.run_cases(run_case, cases, chunk=1, sweep='D-model-routes')
     ctx.bounds['D'] = {'spikes_at': [0, 1, 2, 9, 10, 'n-2', 'n-1'], 'raw_dtype': ['int16', 'float32'],
                        'raw_files': [1, 2, 3], 'channel_map': ['identity', 'perm', 'sub'],
